@@ -782,8 +782,9 @@ def isTx : Ev → Bool
 
 /-- the end of get_user_data's PORT_TELNET branch: after the text is stored and CMD_IN_BUF updated, the read is
     forwarded to a snooper (`receive_snoop (buf, ..)`, unless NOECHO) - a callback like the others: it may raise an
-    error (get_user_data is left, everything is already committed) or destruct the snooped user.  It is the last thing
-    done with `ip` (fix eca4aec), so it is modelled behind `getUserData`.  Replies are flushed after the step. -/
+    error (receive_snoop() runs under safe_apply since 4a7340a: the error is reported and get_user_data goes on, like
+    for the telnet callbacks) or destruct the snooped user.  It is the last thing done with `ip` (fixes eca4aec /
+    4a7340a), so it is modelled behind `getUserData`.  Replies are flushed after the step. -/
 def readTail (o : Oracle) (r : Run) (s : S) (evs : List Ev) : Run :=
   if r.snoop && s.port == .telnet && !s.closed && !r.noEcho then
     match rxOf evs with
@@ -794,7 +795,9 @@ def readTail (o : Oracle) (r : Run) (s : S) (evs : List Ev) : Run :=
       let pre := evs.filter (fun e => !isTx e) ++ [Ev.snoop (cstrOf chunk)]
       match o n with
       | .ok => r.add { s with cbCount := n + 1 } (pre ++ evs.filter isTx)
-      | .err => r.add { s with cbCount := n + 1 } (pre ++ [Ev.errmsg n, Ev.cberr] ++ evs.filter isTx)
+      | .err =>
+        r.add { s with cbCount := n + 1 }
+          (pre ++ (if snoopSafeApply then [Ev.errmsg n] else [Ev.errmsg n, Ev.cberr]) ++ evs.filter isTx)
       | .dest => r.add { s with cbCount := n + 1, closed := true } (pre ++ evs.filter isTx)
   else r.add s evs
 
